@@ -283,6 +283,27 @@ def w_real(job):
                     except subprocess.TimeoutExpired:
                         prob, detail = 'server-survives-close', 'second session'
                         p2.kill()
+        elif which == 'reuse-while-old-server-exits-slowly':
+            env = Environment(env={'SUPP_LOG_LEVEL': '100', 'PYTHONPATH': core.REPO})
+            env.configure({'sources': ['.']})
+            p1 = env.proc
+            # make the old server linger after it was told to close (slow interpreter shutdown)
+            env.eval('import atexit, time\natexit.register(time.sleep, 1.5)\nreturn 1')
+            env.close()
+            try:
+                env.configure({'sources': ['.']})
+                r = env.lint('x = 1\n', 'a.py')
+                p2 = env.proc
+                if r != [] or p2.pid == p1.pid or p2.poll() is not None:
+                    prob, detail = 'not-reusable-after-close', 'reply %r, new pid %s (old %s), poll %s' % (r, p2.pid, p1.pid, p2.poll())
+                env.close()
+                p2.wait(timeout=10)
+            except Exception as e:
+                prob, detail = 'not-reusable-after-close', 'second session right after close(): %r' % (e,)
+            try:
+                p1.wait(timeout=10)
+            except subprocess.TimeoutExpired:
+                p1.kill()
         elif which == 'close-without-session':
             env = Environment()
             try:
@@ -336,7 +357,7 @@ def w_real(job):
     return sh.result()
 
 
-REAL = ['close-then-reuse', 'close-without-session', 'client-exits', 'client-killed', 'client-closes-connection', 'unstartable-executable', 'executable-exits-at-once']
+REAL = ['close-then-reuse', 'reuse-while-old-server-exits-slowly', 'close-without-session', 'client-exits', 'client-killed', 'client-closes-connection', 'unstartable-executable', 'executable-exits-at-once']
 
 
 def run(run):
